@@ -903,9 +903,14 @@ func (c *Conn) handleStartTLS() {
 	// This is different from just calling reset() since we want the Backend to
 	// be able to see the information about TLS connection in the
 	// ConnectionState object passed to it.
-	if session := c.Session(); session != nil {
+	// Take the session away under the lock, so that a concurrent Close
+	// (Server.Close) cannot log it out a second time.
+	c.locker.Lock()
+	session := c.session
+	c.session = nil
+	c.locker.Unlock()
+	if session != nil {
 		session.Logout()
-		c.setSession(nil)
 	}
 	c.helo = ""
 	c.didAuth = false
